@@ -22,7 +22,7 @@ Detection power (scratch copy of /repo/src, POREPY_SRC=<copy>, quick tier; each 
        caught by "listing: subdomains() sorted by (-dim, id), each present object once"
   M2 md_grid.remove_subdomain: ``sd_pair[0] == sd or sd_pair[1] == sd`` -> ``sd_pair[0] == sd`` (interfaces where
        the removed grid is the lower-dimensional side survive)
-       caught by "remove_subdomain: removes exactly the subdomain, its interfaces and its boundary grid"
+       caught by "remove_subdomain: removes exactly sd, its interfaces, its boundary grid"
   M3 md_grid.replace_subdomains_and_interfaces: secondary branch writes ``(sd_new, sd_pair[0])`` (pair swapped)
        caught by "interface_to_subdomain_pair: (higher, lower) pair of every present interface"
   M4 md_grid.add_subdomains: boundary grid created for ``sd.dim > 1`` only
@@ -356,11 +356,11 @@ def check_view(pool, mdg, model, derived=True):
         got = mdg.subdomains(dim=d)
         exp = [x for x in exp_S if x.dim == d]
         if not _same(got, exp):
-            fails.append(("listing: subdomains(dim=d) is the sorted listing filtered by dimension",
+            fails.append(("listing: subdomains(dim=d) is the sorted listing filtered",
                           f"dim={d}: expected {names(exp)} got {names(got)}"))
     got = mdg.subdomains(return_data=True) if derived else []
     if derived and not (_same([x[0] for x in got], exp_S) and all(x[1] is model.data.get(pool.label_of[id(x[0])]) for x in got if id(x[0]) in pool.label_of)):
-        fails.append(("listing: subdomains(return_data=True) pairs every subdomain with its own data dictionary", names([x[0] for x in got])))
+        fails.append(("listing: subdomains(return_data=True) carries each grid's own data", names([x[0] for x in got])))
     # --- interface listing
     imap = dict(model.I)
     ikey = lambda k: (-pool.intf[k].dim, pool.intf[k].id)  # noqa: E731
@@ -386,7 +386,7 @@ def check_view(pool, mdg, model, derived=True):
         for d in (0, 1) if derived else ():
             got = mdg.boundaries(dim=d)
             if not _same(got, [b for b in exp_B if b.dim == d]):
-                fails.append(("listing: boundaries(dim=d) is the sorted listing filtered by dimension", f"dim={d}"))
+                fails.append(("listing: boundaries(dim=d) is the sorted listing filtered", f"dim={d}"))
     if set(model.BG) != {l for l in model.S if DIM[l] > 0}:
         fails.append(("boundary grids: exactly one per positive-dimensional subdomain",
                       f"boundary grids known for {sorted(model.BG)}, positive-dimensional subdomains {sorted(l for l in model.S if DIM[l] > 0)}"))
@@ -435,7 +435,7 @@ def check_view(pool, mdg, model, derived=True):
             except KeyError:
                 got = None
             if got is not exp:
-                fails.append(("subdomain_pair_to_interface: inverse of interface_to_subdomain_pair (either order), KeyError for uncoupled pairs",
+                fails.append(("subdomain_pair_to_interface: inverse of interface_to_subdomain_pair",
                               f"({h},{l}): expected {nm(exp) if exp is not None else 'KeyError'} got {nm(got) if got is not None else 'KeyError'}"))
     # --- derived graph queries
     for s in model.S if derived else ():
@@ -494,14 +494,14 @@ def step(pool, mdg, model, op, derived_done=None):
             derived_done.add(model.key())
     except Exception as e:  # noqa: BLE001
         view = [("listing: queries on the container do not raise", f"{type(e).__name__}: {str(e)[:160]}")]
-    post = {"add": "add_subdomains: exactly the new grids and their boundary grids are added",
-            "addl": "add_subdomains: exactly the new grids and their boundary grids are added",
-            "addi": "add_interface: exactly the new interface is added, mapped to its (higher, lower) pair",
-            "rm": "remove_subdomain: removes exactly the subdomain, its interfaces and its boundary grid",
-            "rep": "replace_subdomains_and_interfaces: new grid takes the place of the old one in every pair, one new boundary grid, nothing else changes",
-            "repm": "replace_subdomains_and_interfaces: new grid takes the place of the old one in every pair, one new boundary grid, nothing else changes",
-            "repc": "replace_subdomains_and_interfaces: new grid takes the place of the old one in every pair, one new boundary grid, nothing else changes",
-            "repi": "replace_subdomains_and_interfaces: replacing a mortar grid leaves the container unchanged"}[op[0]]
+    post = {"add": "add_subdomains: adds exactly the new grids and their boundary grids",
+            "addl": "add_subdomains: adds exactly the new grids and their boundary grids",
+            "addi": "add_interface: adds exactly the new interface with its (higher, lower) pair",
+            "rm": "remove_subdomain: removes exactly sd, its interfaces, its boundary grid",
+            "rep": "replace_subdomains_and_interfaces: exact replacement, nothing else changes",
+            "repm": "replace_subdomains_and_interfaces: exact replacement, nothing else changes",
+            "repc": "replace_subdomains_and_interfaces: exact replacement, nothing else changes",
+            "repi": "replace_subdomains_and_interfaces: mortar replacement leaves container unchanged"}[op[0]]
     if view:
         fails.append((post, f"{len(view)} view clauses differ from the model, first: {view[0][0]}: {view[0][1]}"))
     return fails + view
